@@ -564,13 +564,7 @@ def run(ck):
         if not sphere:
             continue
         ck.coverage["evaluations"] += 1
-        try:
-            A = makeSphere(build(spec), radii[0])
-            B = makeEllipsoid(build(spec), radii[0], radii[0], radii[0])
-            same = len(A) == len(B) and A.lattice.abcABG() == B.lattice.abcABG() and all(
-                attrs_of(x) == attrs_of(y) and numpy.array_equal(x.xyz, y.xyz) for x, y in zip(A, B))
-        except Exception as e:  # noqa: BLE001  (already reported by the oracle above as cut:raises)
-            same = isinstance(e, (IndexError, ValueError)) and any(v[1].startswith("makeSphere") for v in ck.violations if v[0])
+        same = sphere_equals_ellipsoid(spec, radii[0])
         if not same:
             ck.fail("cut:sphere", "makeSphere(r=%r) differs from makeEllipsoid(r,r,r)" % radii[0],
                     {"kind": "sphere-eq", "input": {"structure": spec, "radii": radii}})
@@ -670,6 +664,29 @@ def thorough(ck):
         raise common.Broken("leanchecker rejected DS.Props.C18: " + (out + err)[-1000:])
 
 
+def sphere_equals_ellipsoid(spec, r):
+    """makeSphere(S, r) and makeEllipsoid(S, r, r, r) behave alike: the same atoms in the same cell, or the same kind of
+    exception (the block multiplier < 1 of a rotated lattice - the source's FIXME - and an empty input are outside the
+    statement, but a sphere is then still the ellipsoid with three equal radii)"""
+    import numpy
+    from diffpy.structure.expansion.makeellipsoid import makeEllipsoid, makeSphere
+
+    def run(f, *a):
+        try:
+            return ("ok", f(build(spec), *a))
+        except Exception as e:  # noqa: BLE001
+            return ("exc", type(e).__name__)
+
+    A, B = run(makeSphere, r), run(makeEllipsoid, r, r, r)
+    if A[0] != B[0]:
+        return False
+    if A[0] == "exc":
+        return A[1] == B[1]
+    A, B = A[1], B[1]
+    return len(A) == len(B) and A.lattice.abcABG() == B.lattice.abcABG() and all(
+        attrs_of(x) == attrs_of(y) and numpy.array_equal(x.xyz, y.xyz) for x, y in zip(A, B))
+
+
 def replay(path):
     common.use_repo()
     r = json.load(open(path))
@@ -691,9 +708,7 @@ def replay(path):
         import numpy
         from diffpy.structure.expansion.makeellipsoid import makeEllipsoid, makeSphere
 
-        A = makeSphere(build(inp["structure"]), inp["radii"][0])
-        B = makeEllipsoid(build(inp["structure"]), inp["radii"][0], inp["radii"][0], inp["radii"][0])
-        same = len(A) == len(B) and all(numpy.array_equal(x.xyz, y.xyz) for x, y in zip(A, B))
+        same = sphere_equals_ellipsoid(inp["structure"], inp["radii"][0])
         print("sphere == ellipsoid:", same)
         return 0 if same else 1
     try:
